@@ -43,6 +43,7 @@ type FuncSpec struct {
 	Lets       []*Clause
 	Requires   []*Clause
 	Assumes    []*Clause // assumed at entry, not required of callers (heap well-formedness)
+	Defines    []*Clause // definitional postconditions (assumed at call sites only)
 	Ensures    []*Clause
 	XEnsures   []*Clause
 	Modifies   []*Clause
@@ -108,7 +109,7 @@ var topKeywords = map[string]bool{"declare": true, "type": true, "func": true, "
 var subKeywords = map[string]bool{"requires": true, "ensures": true, "xensures": true, "invariant": true, "decreases": true,
 	"modifies": true, "let": true, "loop": true, "implements": true, "props": true, "pure": true, "nopanic": true, "inline": true,
 	"view": true, "modelfield": true, "guarded_by": true, "trusted": true, "safe": true, "opaque": true, "noverify": true, "immutable": true,
-	"hint": true, "assumes": true, "uses": true, "hypothesis": true, "mayblock": true, "terminates": true, "nilok": true, "noinv": true, "noxinv": true, "noframe": true, "constructor": true}
+	"defines": true, "hint": true, "assumes": true, "uses": true, "hypothesis": true, "mayblock": true, "terminates": true, "nilok": true, "noinv": true, "noxinv": true, "noframe": true, "constructor": true}
 
 var clauseHead = regexp.MustCompile(`^([a-z_]+)(\[[A-Za-z0-9, ]+\])?\s*(.*)$`)
 
@@ -372,6 +373,12 @@ func (c *Contracts) loadFile(path string) error {
 					if curLoop != nil {
 						curLoop.Decreases = cl
 					} else {
+						// recursion variant: a lexicographic tuple "e1, e2, ..."
+						e, err := ParseExpr("tuple(" + cl.Text + ")")
+						if err != nil {
+							return fmt.Errorf("%s:%d: %v", path, s.line, err)
+						}
+						cl.E = e
 						fs.Decreases = cl
 					}
 				case "requires":
@@ -379,6 +386,10 @@ func (c *Contracts) loadFile(path string) error {
 					fs.Requires = append(fs.Requires, cl)
 				case "assumes":
 					fs.Assumes = append(fs.Assumes, cl)
+				case "defines":
+					// a postcondition that defines a specification function as "what this function returns":
+					// assumed by callers, never an obligation (the function is deterministic in these arguments)
+					fs.Defines = append(fs.Defines, cl)
 				case "ensures":
 					cl.Ord = len(fs.Ensures) + 1
 					fs.Ensures = append(fs.Ensures, cl)
@@ -432,7 +443,8 @@ func (c *Contracts) loadFile(path string) error {
 				}
 			}
 			key := pkg + "." + fs.Key
-			if w == "assume" && strings.Contains(fs.Key, "/") || w == "assume" && strings.Count(fs.Key, ".") >= 1 && !strings.HasPrefix(fs.Key, "(") {
+			if w == "assume" && (strings.Contains(fs.Key, "/") || strings.Count(fs.Key, ".") >= 1 && !strings.HasPrefix(fs.Key, "(") ||
+				strings.HasPrefix(fs.Key, "(") && strings.Contains(fs.Key[:strings.Index(fs.Key, ")")], ".")) {
 				key = fs.Key // fully qualified external: "strings.Split", "(*sync.Mutex).Lock"
 			}
 			if w == "assume" {
@@ -495,7 +507,13 @@ func parseClause(l rawLine, path string) (*Clause, error) {
 		}
 	}
 	switch cl.Kind {
-	case "requires", "ensures", "xensures", "invariant", "decreases", "view", "hypothesis", "assumes":
+	case "decreases":
+		if e, err := ParseExpr(cl.Text); err == nil {
+			cl.E = e
+		} else if _, err2 := ParseExpr("tuple(" + cl.Text + ")"); err2 != nil {
+			return nil, fmt.Errorf("%s:%d: %v", path, l.line, err)
+		}
+	case "requires", "ensures", "xensures", "invariant", "view", "hypothesis", "assumes", "defines":
 		e, err := ParseExpr(cl.Text)
 		if err != nil {
 			return nil, fmt.Errorf("%s:%d: %v", path, l.line, err)
